@@ -137,42 +137,76 @@ theorem bySegments_sublist (lower : Char → Char) (name pat : Str)
   · subst hp; exact List.nil_sublist _
   · exact (fuzzyScore_pos_sublist lower seg pat hs).trans ((splitOn_sublist _ _ _ hm).map lower)
 
-theorem trimColon_sublist (q : Str) : (trimColon q).Sublist q := by
-  unfold trimColon
-  split
-  · exact List.dropLast_sublist q
-  · exact List.Sublist.refl q
-
 theorem trimColon_eq (q : Str) (h : q.getLast? ≠ some ':') : trimColon q = q := by
   unfold trimColon; rw [if_neg h]
 
-/-- What a positive score of the fuzzy branch guarantees, whatever the query: the label
-    matches the query without its trailing colon. -/
-theorem fuzzyItemScore_pos_weak (lower : Char → Char) (q l : Str) (h : 0 < fuzzyItemScore lower q l) :
-    ((trimColon q).map lower).Sublist (l.map lower) := by
+theorem trimColon_append (q : Str) (h : q.getLast? = some ':') : trimColon q ++ [':'] = q := by
+  unfold trimColon; rw [if_pos h]
+  have hne : q ≠ [] := by rintro rfl; simp at h
+  have hl : q.getLast hne = ':' := by
+    rw [List.getLast?_eq_some_getLast hne] at h; exact Option.some.inj h
+  have := List.dropLast_concat_getLast hne
+  rwa [hl] at this
+
+theorem lastIndexP_spec (p : Char → Bool) (l : Str) (k : Nat) (h : lastIndexP p l = some k) :
+    ∃ c, l[k]? = some c ∧ p c = true := by
+  induction l generalizing k with
+  | nil => simp [lastIndexP] at h
+  | cons x xs ih =>
+    unfold lastIndexP at h
+    split at h
+    · next k' hk' =>
+      cases h
+      obtain ⟨c, hc, hp⟩ := ih k' hk'
+      exact ⟨c, by simpa using hc, hp⟩
+    · split at h
+      · next hpx => cases h; exact ⟨x, rfl, hpx⟩
+      · cases h
+
+theorem lastIndexP_lt (p : Char → Bool) (l : Str) (k : Nat) (h : lastIndexP p l = some k) : k < l.length := by
+  obtain ⟨c, hc, _⟩ := lastIndexP_spec p l k h
+  exact (List.getElem?_eq_some_iff.1 hc).1
+
+/-- The text up to and including the last colon. -/
+theorem take_lastColon (l : Str) (k : Nat) (h : lastIndexP (· == ':') l = some k) :
+    l.take (k + 1) = l.take k ++ [':'] := by
+  obtain ⟨c, hc, hp⟩ := lastIndexP_spec _ l k h
+  have : c = ':' := by simpa using hp
+  subst this
+  rw [List.take_add_one, hc]; rfl
+
+/-- What a positive score of the fuzzy branch guarantees, whatever the query: the query is a
+    subsequence of the label, letter case ignored. -/
+theorem fuzzyItemScore_pos (lower : Char → Char) (q l : Str) (h : 0 < fuzzyItemScore lower q l) :
+    (q.map lower).Sublist (l.map lower) := by
   unfold fuzzyItemScore at h
   simp only [] at h
-  generalize hs1 : (if ':' ∈ l then fuzzyScoreBySegments lower l (trimColon q) else 0) = s1 at h
-  by_cases hpos : s1 > 0
-  · split at hs1
-    · rw [← hs1] at hpos; exact bySegments_sublist lower l _ hpos
-    · omega
-  · rw [if_neg hpos] at h
-    exact ((trimColon_sublist q).map lower).trans (fuzzyScore_pos_sublist lower l q h)
-
-theorem fuzzyItemScore_pos (lower : Char → Char) (q l : Str) (hq : q.getLast? ≠ some ':')
-    (h : 0 < fuzzyItemScore lower q l) : (q.map lower).Sublist (l.map lower) := by
-  have := fuzzyItemScore_pos_weak lower q l h
-  rwa [trimColon_eq q hq] at this
+  cases hk : lastIndexP (· == ':') l with
+  | none =>
+    simp only [hk] at h
+    exact fuzzyScore_pos_sublist lower l q (by simpa using h)
+  | some k =>
+    simp only [hk] at h
+    by_cases hpos : fuzzyScoreBySegments lower (if q.getLast? = some ':' then l.take k else l) (trimColon q) > 0
+    · by_cases hc : q.getLast? = some ':'
+      · rw [if_pos hc] at hpos
+        have h1 := bySegments_sublist lower (l.take k) (trimColon q) hpos
+        have h2 : ((trimColon q ++ [':']).map lower).Sublist ((l.take k ++ [':']).map lower) := by
+          simp only [List.map_append]
+          exact List.Sublist.append h1 (List.Sublist.refl _)
+        rw [trimColon_append q hc, ← take_lastColon l k hk] at h2
+        exact h2.trans ((List.take_sublist _ _).map lower)
+      · rw [if_neg hc] at hpos
+        have := bySegments_sublist lower l (trimColon q) hpos
+        rwa [trimColon_eq q hc] at this
+    · rw [if_neg hpos] at h
+      exact fuzzyScore_pos_sublist lower l q h
 
 theorem fuzzyItemScore_of_prefix (lower : Char → Char) (q l : Str)
     (h : (q.map lower) <+: (l.map lower)) : 0 < fuzzyItemScore lower q l := by
-  unfold fuzzyItemScore
-  simp only []
-  generalize (if ':' ∈ l then fuzzyScoreBySegments lower l (trimColon q) else 0) = s1
-  by_cases hpos : s1 > 0
-  · rw [if_pos hpos]; exact hpos
-  · rw [if_neg hpos]; exact fuzzyScore_pos_of_prefix lower l q h
+  have key : ∀ a b : Nat, 0 < b → 0 < if a > 0 then a else b := by
+    intro a b hb; split <;> omega
+  exact key _ _ (fuzzyScore_pos_of_prefix lower l q h)
 
 /-! ### `filterAndScoreFuzzyMatch` -/
 
@@ -305,58 +339,49 @@ theorem truncate_length_le (m : Nat) (l : List Scored) (hm : 0 < m) : (truncate 
 
 /-! ### The candidates come from the table -/
 
-theorem lookup_mem {β : Type} (l : List (Str × β)) (k : Str) (v : β) (h : l.lookup k = some v) : (k, v) ∈ l := by
-  induction l with
-  | nil => simp at h
-  | cons p ps ih =>
-    obtain ⟨a, b⟩ := p
-    simp only [List.lookup_cons] at h
-    split at h
-    · next heq =>
-      have : k = a := by simpa using heq
-      cases h; subst this; exact List.mem_cons_self
-    · exact List.mem_cons_of_mem _ (ih h)
-
-theorem labelsFor_subset (t : Table) (c : Ctx) (line : Str) (col : Nat) (hj : judged c = true)
-    (hidx : indexSubset t = true) (l : Str) (h : l ∈ labelsFor t c line col) : l ∈ namesOf t c := by
-  cases c <;> simp [judged] at hj <;> simp only [labelsFor, namesOf] at h ⊢ <;> try exact h
+theorem accountsForPrefix_subset (lower : Char → Char) (t : Table) (pre l : Str)
+    (h : l ∈ accountsForPrefix lower t pre) : l ∈ t.accounts := by
   unfold accountsForPrefix at h
   split at h
   · exact h
-  · split at h
-    · next lst heq =>
-      have hm := lookup_mem _ _ _ heq
-      unfold indexSubset at hidx
-      have := List.all_eq_true.1 hidx _ hm
-      simp only [] at this
-      have := List.all_eq_true.1 this _ h
-      simpa using this
+  · simp only [] at h
+    split at h
     · exact h
+    · exact (List.mem_filter.1 h).1
 
-theorem accountsForPrefix_complete (t : Table) (key n : Str) (hn : n ∈ t.accounts)
-    (hidx : indexSuperset t = true)
-    (hk : key = [] ∨ t.byPrefix.lookup key = none ∨ key <+: n) : n ∈ accountsForPrefix t key := by
+/-- The narrowing never loses an account that starts with the typed parent in some letter case. -/
+theorem accountsForPrefix_complete (lower : Char → Char) (t : Table) (pre n : Str) (hn : n ∈ t.accounts)
+    (hk : (pre.map lower) <+: (n.map lower)) : n ∈ accountsForPrefix lower t pre := by
   unfold accountsForPrefix
   split
   · exact hn
-  · next hne =>
+  · simp only []
     split
-    · next lst heq =>
-      rcases hk with hk | hk | hk
-      · exact absurd hk hne
-      · rw [heq] at hk; cases hk
-      · have hm := lookup_mem _ _ _ heq
-        unfold indexSuperset at hidx
-        have := List.all_eq_true.1 hidx _ hm
-        simp only [] at this
-        have := List.all_eq_true.1 this _ hn
-        simp only [Bool.or_eq_true, Bool.not_eq_true', List.contains_iff_mem] at this
-        rcases this with h1 | h1
-        · rw [List.isPrefixOf_iff_prefix.2 hk] at h1; cases h1
-        · exact h1
     · exact hn
+    · exact List.mem_filter.2 ⟨hn, List.isPrefixOf_iff_prefix.2 hk⟩
 
-/-! ### Query and edit range (code with repo_patches/fix-completion-edit-range.diff) -/
+theorem labelsFor_subset (lower : Char → Char) (t : Table) (c : Ctx) (line : Str) (col : Nat)
+    (hj : judged c = true) (l : Str) (h : l ∈ labelsFor lower t c line col) : l ∈ namesOf t c := by
+  cases c <;> simp [judged] at hj <;> simp only [labelsFor, namesOf] at h ⊢ <;> try exact h
+  exact accountsForPrefix_subset lower t _ l h
+
+/-- The typed parent is a prefix of the typed fragment. -/
+theorem extractAccountPrefix_prefix (line : Str) (col : Nat) :
+    extractAccountPrefix line col <+: extractQuery .account line col := by
+  unfold extractAccountPrefix
+  simp only []
+  split
+  · exact List.nil_prefix
+  · exact List.take_prefix _ _
+
+/-- Every name of the context's table that starts with the typed fragment is a candidate. -/
+theorem labelsFor_complete (lower : Char → Char) (t : Table) (c : Ctx) (line : Str) (col : Nat)
+    (hj : judged c = true) (n : Str) (hn : n ∈ namesOf t c)
+    (hp : ((extractQuery c line col).map lower) <+: (n.map lower)) : n ∈ labelsFor lower t c line col := by
+  cases c <;> simp [judged] at hj <;> simp only [labelsFor, namesOf] at hn ⊢ <;> try exact hn
+  exact accountsForPrefix_complete lower t _ n hn (((extractAccountPrefix_prefix line col).map lower).trans hp)
+
+/-! ### Query and edit range -/
 
 theorem dropWhile_eq_drop (p : Char → Bool) (l : Str) : l.dropWhile p = l.drop (l.takeWhile p).length := by
   induction l with
@@ -465,11 +490,11 @@ theorem findCommodityStart_spec (s : Str) :
     s.drop (findCommodityStart s s.length) = commodityQuery s := by
   unfold findCommodityStart commodityQuery parsePosting
   simp only [trimLeftP]
-  cases hds : findDoublespace (s.dropWhile isBlankTab) with
+  cases hds : findDoublespace (s.dropWhile isPostingLead) with
   | none => simp
   | some k =>
     simp only []
-    exact commodityStart_aux s _ _ k _ (drop_sub_dropWhile isBlankTab s)
+    exact commodityStart_aux s _ _ k _ (drop_sub_dropWhile isPostingLead s)
       (List.dropWhile_sublist _).length_le (findDoublespace_le _ _ hds)
       (drop_sub_dropWhile isBlank _) (List.dropWhile_sublist _).length_le (findAmountEnd_le _)
 
@@ -485,42 +510,42 @@ theorem not_hasPrefix_cut (s p : Str) (h : ¬ hasPrefix s p = true) : cutPrefix 
   unfold cutPrefix
   rw [if_neg h]
 
-/-- Char-index form of `edit_replaces_fragment`. -/
+theorem hasPrefix_length (s p : Str) (h : hasPrefix s p = true) : p.length ≤ s.length := by
+  unfold hasPrefix at h
+  exact (List.isPrefixOf_iff_prefix.1 h).length_le
+
+theorem accountQueryStart_le (before : Str) : accountQueryStart before ≤ before.length := by
+  unfold accountQueryStart
+  split
+  · next h => exact hasPrefix_length _ _ h
+  · split
+    · next h => exact hasPrefix_length _ _ h
+    · omega
+
+theorem payeeQueryStart_le (before : Str) : payeeQueryStart before ≤ before.length := by
+  unfold payeeQueryStart
+  split <;> omega
+
+theorem tagNameQueryStart_le (before : Str) : tagNameQueryStart before ≤ before.length := by
+  unfold tagNameQueryStart; omega
+
+/-- Char-index form of `edit_replaces_fragment`: in the four judged contexts the edit range
+    starts at or before the cursor and covers exactly the query. -/
 theorem editStart_query (c : Ctx) (line : Str) (col : Nat) (hcol : col ≤ line.length)
-    (hc : c = .account ∨ c = .payee ∨ c = .commodity) :
-    ∃ s, editStart true c line col = some s ∧ s ≤ col ∧
-      (line.take col).drop s = extractQuery true c line col := by
+    (hc : c = .account ∨ c = .payee ∨ c = .commodity ∨ c = .tagName) :
+    ∃ s, editStart c line col = some s ∧ s ≤ col ∧
+      (line.take col).drop s = extractQuery c line col := by
   have hlen : (line.take col).length = col := by rw [List.length_take]; omega
   generalize hb : line.take col = before at hlen
-  rcases hc with rfl | rfl | rfl
+  rcases hc with rfl | rfl | rfl | rfl
   · -- account
-    simp only [editStart, extractQuery, hb, if_true]
-    by_cases h1 : hasPrefix before directiveAccount = true
-    · obtain ⟨hc1, hl1⟩ := hasPrefix_cut _ _ h1
-      rw [if_pos h1, hc1]
-      exact ⟨_, rfl, by omega, rfl⟩
-    · rw [if_neg h1, not_hasPrefix_cut _ _ h1]
-      by_cases h2 : hasPrefix before directiveApplyAccount = true
-      · obtain ⟨hc2, hl2⟩ := hasPrefix_cut _ _ h2
-        rw [if_pos h2, hc2]
-        exact ⟨_, rfl, by omega, rfl⟩
-      · rw [if_neg h2, not_hasPrefix_cut _ _ h2]
-        refine ⟨_, rfl, by omega, ?_⟩
-        simp only [trimLeftP]
-        rw [← hlen]; exact drop_sub_dropWhile _ _
+    simp only [editStart, extractQuery, hb]
+    exact ⟨_, rfl, hlen ▸ accountQueryStart_le before, rfl⟩
   · -- payee
-    simp only [editStart, extractQuery, hb, if_true]
-    cases hi : indexOf ' ' before with
-    | none => exact ⟨_, rfl, Nat.le_refl _, by simp [← hlen]⟩
-    | some k =>
-      have hk := indexOf_lt _ _ _ hi
-      have htw := length_takeWhile_le isPayeeSkip (before.drop (k + 1))
-      simp only [List.length_drop] at htw
-      refine ⟨_, rfl, by omega, ?_⟩
-      simp only [trimLeftP]
-      rw [← List.drop_drop, ← dropWhile_eq_drop]
+    simp only [editStart, extractQuery, hb]
+    exact ⟨_, rfl, hlen ▸ payeeQueryStart_le before, rfl⟩
   · -- commodity
-    simp only [editStart, extractQuery, hb, if_true]
+    simp only [editStart, extractQuery, hb]
     by_cases h1 : hasPrefix before directiveCommodity = true
     · obtain ⟨hc1, hl1⟩ := hasPrefix_cut _ _ h1
       rw [if_pos h1, hc1]
@@ -529,6 +554,193 @@ theorem editStart_query (c : Ctx) (line : Str) (col : Nat) (hcol : col ≤ line.
       have := findCommodityStart_spec before
       rw [hlen] at this
       exact ⟨_, rfl, this.1, this.2⟩
+  · -- tag name
+    simp only [editStart, extractQuery, hb]
+    exact ⟨_, rfl, hlen ▸ tagNameQueryStart_le before, rfl⟩
+
+/-! ### Searching in concatenations (for the fragment theorems) -/
+
+theorem indexOf_append_cons (c : Char) (a b : Str) (h : c ∉ a) : indexOf c (a ++ c :: b) = some a.length := by
+  induction a with
+  | nil => simp [indexOf]
+  | cons x xs ih =>
+    have hx : x ≠ c := fun e => h (e ▸ List.mem_cons_self)
+    have hxs : c ∉ xs := fun e => h (List.mem_cons_of_mem _ e)
+    simp only [List.cons_append, indexOf, if_neg hx, ih hxs, Option.map_some, List.length_cons]
+
+theorem lastIndexP_append_of_not (p : Char → Bool) (a b : Str) (h : ∀ x ∈ b, p x = false) :
+    lastIndexP p (a ++ b) = lastIndexP p a := by
+  induction a with
+  | nil =>
+    simp only [List.nil_append]
+    induction b with
+    | nil => rfl
+    | cons y ys ih =>
+      have hy := h y List.mem_cons_self
+      have := ih (fun x hx => h x (List.mem_cons_of_mem _ hx))
+      simp only [lastIndexP] at this ⊢
+      simp [this, hy]
+  | cons x xs ih => simp only [List.cons_append, lastIndexP, ih]
+
+theorem lastIndexP_append_cons (p : Char → Bool) (a b : Str) (c : Char) (hc : p c = true)
+    (hb : ∀ x ∈ b, p x = false) : lastIndexP p (a ++ c :: b) = some a.length := by
+  induction a with
+  | nil =>
+    have := lastIndexP_append_of_not p [] b hb
+    simp only [List.nil_append] at this
+    simp [lastIndexP, this, hc]
+  | cons x xs ih => simp only [List.cons_append, lastIndexP, ih, List.length_cons]
+
+/-! ### The executable ranking is stable -/
+
+theorem sublist_insertRanked (counts : Option (List (Str × Nat))) (x : Scored) (l : List Scored) :
+    l.Sublist (insertRanked counts x l) := by
+  induction l with
+  | nil => exact List.nil_sublist _
+  | cons y ys ih =>
+    unfold insertRanked
+    split
+    · exact ih.cons_cons y
+    · exact (List.Sublist.refl _).cons x
+
+theorem insertRanked_before (counts : Option (List (Str × Nat))) (x b : Scored) (l : List Scored)
+    (hb : b ∈ l) (hnl : less counts b x = false) : [x, b].Sublist (insertRanked counts x l) := by
+  induction l with
+  | nil => cases hb
+  | cons y ys ih =>
+    unfold insertRanked
+    split
+    · next hlt =>
+      have hne : b ≠ y := by rintro rfl; rw [hnl] at hlt; cases hlt
+      have hb' : b ∈ ys := by
+        rcases List.mem_cons.1 hb with h | h
+        · exact absurd h hne
+        · exact h
+      exact (ih hb').cons y
+    · exact (List.singleton_sublist.2 hb).cons_cons x
+
+/-- `rankExec` is a stable sort: when `a` stands before `b` in the input and `b` need not go
+    before `a` (equal keys, or `a` ranks higher), `a` stands before `b` in the output. -/
+theorem rankExec_stable (counts : Option (List (Str × Nat))) (l : List Scored) (a b : Scored)
+    (hab : [a, b].Sublist l) (hnl : less counts b a = false) : [a, b].Sublist (rankExec counts l) := by
+  induction l with
+  | nil => cases hab
+  | cons x xs ih =>
+    unfold rankExec
+    cases hab with
+    | cons _ h => exact (ih h).trans (sublist_insertRanked counts x _)
+    | cons_cons _ h =>
+      have hb : b ∈ rankExec counts xs :=
+        ((rankExec_isRanking counts xs).1.mem_iff).2 (List.singleton_sublist.1 h)
+      exact insertRanked_before counts a b _ hb hnl
+
+theorem pair_sublist_antisymm {α : Type} (l : List α) (a b : α) (hnd : l.Nodup)
+    (h1 : [a, b].Sublist l) (h2 : [b, a].Sublist l) : False := by
+  induction l with
+  | nil => cases h1
+  | cons x xs ih =>
+    have hx := (List.nodup_cons.1 hnd)
+    cases h1 with
+    | cons _ h1' =>
+      cases h2 with
+      | cons _ h2' => exact ih hx.2 h1' h2'
+      | cons_cons _ h2' =>
+        -- b = x, [a] <+ xs, and [a,b] <+ xs → b ∈ xs
+        exact hx.1 (h1'.subset (by simp))
+    | cons_cons _ h1' =>
+      cases h2 with
+      | cons _ h2' => exact hx.1 (h2'.subset (by simp))
+      | cons_cons _ h2' =>
+        exact hx.1 (List.singleton_sublist.1 h1')
+
+theorem pair_sublist_total {α : Type} (l : List α) (a b : α) (ha : a ∈ l) (hb : b ∈ l) (hab : a ≠ b) :
+    [a, b].Sublist l ∨ [b, a].Sublist l := by
+  induction l with
+  | nil => cases ha
+  | cons x xs ih =>
+    rcases List.mem_cons.1 ha with rfl | ha'
+    · rcases List.mem_cons.1 hb with h | hb'
+      · exact absurd h.symm hab
+      · exact Or.inl ((List.singleton_sublist.2 hb').cons_cons _)
+    · rcases List.mem_cons.1 hb with rfl | hb'
+      · exact Or.inr ((List.singleton_sublist.2 ha').cons_cons _)
+      · rcases ih ha' hb' with h | h
+        · exact Or.inl (h.cons _)
+        · exact Or.inr (h.cons _)
+
+/-- A stable sort is a function: the sorted permutation that keeps the input order of elements
+    neither of which must precede the other is unique (for distinct candidates). -/
+theorem stable_ranking_unique (counts : Option (List (Str × Nat))) (scored r : List Scored)
+    (hnd : scored.Nodup) (hr : IsRanking counts scored r)
+    (hst : ∀ a b, [a, b].Sublist scored → less counts b a = false → [a, b].Sublist r) :
+    r = rankExec counts scored := by
+  have hR := rankExec_isRanking counts scored
+  have hRst := rankExec_stable counts scored
+  have hndr : r.Nodup := hr.1.nodup_iff.2 hnd
+  have hndR : (rankExec counts scored).Nodup := hR.1.nodup_iff.2 hnd
+  have hsorted_r : ∀ a b, [a, b].Sublist r → less counts b a = false :=
+    fun a b h => List.pairwise_iff_forall_sublist.1 hr.2 h
+  have hsorted_R : ∀ a b, [a, b].Sublist (rankExec counts scored) → less counts b a = false :=
+    fun a b h => List.pairwise_iff_forall_sublist.1 hR.2 h
+  let le : Scored → Scored → Prop := fun a b => [a, b].Sublist (rankExec counts scored)
+  refine List.Perm.eq_of_pairwise (le := le) ?_ ?_ ?_ (hr.1.trans hR.1.symm)
+  · intro a b _ _ hab hba
+    exact (pair_sublist_antisymm _ a b hndR hab hba).elim
+  · rw [List.pairwise_iff_forall_sublist]
+    intro a b hab
+    have ha : a ∈ scored := hr.1.mem_iff.1 (hab.subset (by simp))
+    have hb : b ∈ scored := hr.1.mem_iff.1 (hab.subset (by simp))
+    have hne : a ≠ b := by
+      rintro rfl
+      have : a ≠ a := List.pairwise_iff_forall_sublist.1 hndr hab
+      exact this rfl
+    rcases pair_sublist_total scored a b ha hb hne with h | h
+    · cases hl : less counts b a
+      · exact hRst a b h hl
+      · have := hsorted_r a b hab
+        rw [hl] at this; cases this
+    · cases hl : less counts a b
+      · exact (pair_sublist_antisymm r a b hndr hab (hst b a h hl)).elim
+      · rcases pair_sublist_total _ a b (hR.1.mem_iff.2 ha) (hR.1.mem_iff.2 hb) hne with h' | h'
+        · exact h'
+        · have := hsorted_R b a h'
+          rw [hl] at this; cases this
+  · rw [List.pairwise_iff_forall_sublist]
+    intro a b hab
+    exact hab
+/-! ### Helpers of the fragment theorems -/
+
+/-- `skipCode` leaves a text alone that does not start with a parenthesis. -/
+theorem skipCode_id (s : Str) (h : ∀ c ∈ s.head?, c ≠ '(') : skipCode s = s := by
+  unfold skipCode
+  split
+  · exact absurd rfl (h '(' (by simp))
+  · rfl
+
+theorem dropWhile_append_frag (p : Char → Bool) (pre frag : Str) (hpre : ∀ c ∈ pre, p c = true)
+    (hf : ∀ c ∈ frag.head?, p c = false) : (pre ++ frag).dropWhile p = frag := by
+  rw [List.dropWhile_append_of_pos hpre]
+  cases frag with
+  | nil => rfl
+  | cons f fs =>
+    have := hf f (by simp)
+    simp [this]
+
+theorem take_pre_frag (p frag rest : Str) :
+    (p ++ frag ++ rest).take (p.length + frag.length) = p ++ frag := by
+  rw [← List.length_append]; exact List.take_left' rfl
+
+theorem length_sub_frag (p frag : Str) : (p ++ frag).length - frag.length = p.length := by
+  rw [List.length_append]; omega
+
+theorem not_comma_of_blanks_frag (blanks frag : Str) (hbl : ∀ c ∈ blanks, isBlankTab c = true) (hc : ',' ∉ frag) :
+    ∀ x ∈ blanks ++ frag, (x == ',') = false := by
+  intro x hx
+  rcases List.mem_append.1 hx with hx | hx
+  · have := hbl x hx
+    simp only [isBlankTab, Bool.or_eq_true, beq_iff_eq] at this
+    rcases this with rfl | rfl <;> rfl
+  · simp only [beq_eq_false_iff_ne, ne_eq]; rintro rfl; exact hc hx
 
 /-! ### Further helpers of HL.Props.C16 -/
 
